@@ -56,6 +56,7 @@ class Session:
         self.params0 = dyn.snap_params(self.U)
         self.last_sym = None  # (kind, opts) of the last complete symbolic step on self.net
         self.prev_numeric_ic = None
+        self.numpy_results = {}
         M.engines.use(self.engines["sx"])  # a defined selection at the start of every session
         self.selected_kind = "sx"
 
@@ -215,6 +216,20 @@ class Session:
             self.last_sym = (kind, op) if kind != "numpy" else None
             if kind == "numpy" or op.get("check", True):
                 self.compare_with_twin(op, kind, where)
+            if kind == "numpy":
+                # "stepping again from the same values gives identical next states": a later step that
+                # repeats an earlier call of this session (same values, same options, same topology) is
+                # compared with what that earlier call produced -- no twin involved
+                now = (len(self.build_ops), dyn.next_states_numeric(self.U, self.net))
+                j = op.get("repeat_of")
+                if j is not None and j in self.numpy_results and self.numpy_results[j][0] == now[0]:  # j: tag of the earlier call
+                    d = dyn.diff_numeric(self.numpy_results[j][1], now[1])
+                    if d:
+                        raise Violation("C12/not-repeatable:same-call-twice",
+                                        f"{where}: repeats an earlier call of this session (same values and options) but gives other next states: {d}")
+                    self.res.probes["same_call_repeated_equal"] += 1
+                if op.get("tag") is not None:
+                    self.numpy_results[op["tag"]] = now
         return "ok"
 
     def line_budget(self, op, kind) -> int:
@@ -540,6 +555,19 @@ def generate(prop: str, run_seed: int, tier: str = "quick") -> dict:
         elif o["op"] == "step" and o.get("via") == "default" and o["eng"] != sel:
             keep = {k: o[k] for k in ("fault",) if k in o}
             ops[j] = dict(gen_step(rng, cfg, kind=sel, allow_fault=False, tier=tier), via="default", **keep)
+    # one later step repeats an earlier explicit NumPy call of the session verbatim (fresh arrays); the
+    # two are linked by a tag, not by position, so that minimisation cannot mis-pair them
+    idx = [j for j, o in enumerate(ops) if o["op"] == "step" and o["eng"] == "numpy" and o.get("via") == "explicit"
+           and not o.get("fault") and not o.get("alias") and not o.get("reuse_arrays")]
+    if idx and rng.random() < 0.5:
+        j = rng.choice(idx)
+        ops[j]["tag"] = 1
+        rep = {k: v for k, v in ops[j].items() if k in ("op", "eng", "vals", "opts", "zero_d", "neg", "edge", "dtype", "vctrl_scalar", "ic_kind")}
+        rep["via"] = "explicit"
+        rep["repeat_of"] = 1
+        if rng.random() < 0.4:
+            ops[j]["neg"] = rep["neg"] = True
+        ops.insert(rng.randint(j + 1, len(ops)), rep)
     return {"prop": prop, "run_seed": run_seed, "universe": U, "cfg": cfg, "ops": ops}
 
 
@@ -592,7 +620,7 @@ TIERS = {
     "C12": {
         "quick": {"runs": 6000, "selftest": 12, "chunk": 100, "wall_cap": 900, "run_timeout": 120},
         "thorough": {"runs": 150000, "selftest": 48, "chunk": 400, "wall_cap": 3300, "run_timeout": 120,
-                     "expect_probes": ["interrupt", "alias_arrays", "sibling_network", "add_after_step", "twin_compared:numpy",
+                     "expect_probes": ["interrupt", "alias_arrays", "sibling_network", "add_after_step", "same_call_repeated_equal", "twin_compared:numpy",
                                        "twin_compared:sx", "twin_compared:mx"]},
     }
 }
